@@ -33,15 +33,20 @@ Fixpoint assoc_z {X} (d : Z) (l : list (Z * X)) : option X :=
   | (k, x) :: t => if k =? d then Some x else assoc_z d t
   end.
 
-Definition pool_f (fails : list (Z * string)) (a : val) : res val :=
-  match assoc_z (digest a) fails with
-  | Some cls => Err cls
-  | None => Ok (VInt (3 * digest a + 1))
-  end.
+(* The correspondence cases carry every task VALUE already digested (an integer computed by c18.py:digest on the
+   canonical form of the value the sequential iterator delivered); keys stay structured.  The digest of the pair
+   (key, value) is a function of the two digests, so the ITEMS argument is computed here. *)
+Definition pair_digest (dk dv : Z) : Z := (((17 * 131 + dk + 7) mod DMOD) * 131 + dv + 7) mod DMOD.
 
 (* argument shape: VALUES -> the value; ITEMS -> the (key, value) tuple *)
-Definition mk_arg_val (items_form : bool) (k v : val) : val :=
-  if items_form then VTup [k; v] else v.
+Definition mk_arg_d (items_form : bool) (k : val) (dv : Z) : Z :=
+  if items_form then pair_digest (digest k) dv else dv.
+
+Definition pool_f (fails : list (Z * string)) (a : Z) : res val :=
+  match assoc_z a fails with
+  | Some cls => Err cls
+  | None => Ok (VInt (3 * a + 1))
+  end.
 
 Definition pairs_eqb : list (val * val) -> list (val * val) -> bool := list_eqb (pair_eqb val_eqb val_eqb).
 
@@ -58,36 +63,36 @@ Definition spec_eqb {X} (eqb : X -> X -> bool) (a b : res X) : bool :=
 (* ---- IterNodeDelegate.apply_pool, Series / Frame-element constructors: observed = the (label, value)
    pairs of the returned container in its own order *)
 Definition c18_apply_M (items_form : bool) (fails : list (Z * string)) (kind : pool_kind) (k c : Z)
-           (pi : list nat) (items : list (val * val)) (obs : res (list (val * val))) : bool :=
-  obs_eqb pairs_eqb (M_apply_pool (mk_arg_val items_form) (pool_f fails) kind k c pi items) obs.
+           (pi : list nat) (items : list (val * Z)) (obs : res (list (val * val))) : bool :=
+  obs_eqb pairs_eqb (M_apply_pool (mk_arg_d items_form) (pool_f fails) kind k c pi items) obs.
 
 Definition c18_apply_S (items_form : bool) (fails : list (Z * string))
-           (items : list (val * val)) (obs : res (list (val * val))) : bool :=
-  spec_eqb pairs_eqb (S_apply (mk_arg_val items_form) (pool_f fails) items) obs.
+           (items : list (val * Z)) (obs : res (list (val * val))) : bool :=
+  spec_eqb pairs_eqb (S_apply (mk_arg_d items_form) (pool_f fails) items) obs.
 
 (* ---- INDEX_LABELS constructor: an array of the values, keys dropped *)
-Definition c18_labels_M (items_form : bool) fails kind k c pi (items : list (val * val)) (obs : res (list val)) : bool :=
-  obs_eqb vlist_eqb (res_map ctor_labels (M_apply_pool (mk_arg_val items_form) (pool_f fails) kind k c pi items)) obs.
-Definition c18_labels_S (items_form : bool) fails (items : list (val * val)) (obs : res (list val)) : bool :=
-  spec_eqb vlist_eqb (res_map ctor_labels (S_apply (mk_arg_val items_form) (pool_f fails) items)) obs.
+Definition c18_labels_M (items_form : bool) fails kind k c pi (items : list (val * Z)) (obs : res (list val)) : bool :=
+  obs_eqb vlist_eqb (res_map ctor_labels (M_apply_pool (mk_arg_d items_form) (pool_f fails) kind k c pi items)) obs.
+Definition c18_labels_S (items_form : bool) fails (items : list (val * Z)) (obs : res (list val)) : bool :=
+  spec_eqb vlist_eqb (res_map ctor_labels (S_apply (mk_arg_d items_form) (pool_f fails) items)) obs.
 
 (* ---- the oracle alone: Executor.map(f, xs, chunksize) on a real pool under an enforced schedule *)
-Definition c18_exec_M fails kind k c pi (xs : list val) (obs : res (list val)) : bool :=
+Definition c18_exec_M fails kind k c pi (xs : list Z) (obs : res (list val)) : bool :=
   obs_eqb vlist_eqb (exec_map (pool_f fails) kind k c pi xs) obs.
 
 (* ---- Batch: bundle = (label, frame); apply -> f(frame), apply_items -> f((label, frame)) *)
-Definition batch_f (items_form : bool) (fails : list (Z * string)) (b : val * val) : res val :=
-  pool_f fails (mk_arg_val items_form (fst b) (snd b)).
+Definition batch_f (items_form : bool) (fails : list (Z * string)) (b : val * Z) : res val :=
+  pool_f fails (mk_arg_d items_form (fst b) (snd b)).
 Definition listed_cls (cls : string) (e : string) : bool := String.eqb cls e.
 
-Definition c18_batch_M (items_form : bool) fails kind k c pi (items : list (val * val)) obs : bool :=
+Definition c18_batch_M (items_form : bool) fails kind k c pi (items : list (val * Z)) obs : bool :=
   obs_eqb pairs_eqb (M_batch_pool (batch_f items_form fails) kind k c pi items) obs.
-Definition c18_batch_S (items_form : bool) fails (items : list (val * val)) obs : bool :=
+Definition c18_batch_S (items_form : bool) fails (items : list (val * Z)) obs : bool :=
   spec_eqb pairs_eqb (S_batch_apply (batch_f items_form fails) items) obs.
 
-Definition c18_batch_except_M (items_form : bool) fails (cls : string) k c pi (items : list (val * val)) obs : bool :=
+Definition c18_batch_except_M (items_form : bool) fails (cls : string) k c pi (items : list (val * Z)) obs : bool :=
   obs_eqb pairs_eqb (M_batch_pool_except (batch_f items_form fails) (listed_cls cls) c18_except_chunksize k c pi items) obs.
-Definition c18_batch_except_S (items_form : bool) fails (cls : string) (items : list (val * val)) obs : bool :=
+Definition c18_batch_except_S (items_form : bool) fails (cls : string) (items : list (val * Z)) obs : bool :=
   spec_eqb pairs_eqb (S_batch_apply_except (batch_f items_form fails) (listed_cls cls) items) obs.
 
 (* ---- zipped stores: frames are identified by an integer (their cell [0,0]); member bytes by the same
@@ -128,8 +133,39 @@ Definition c18_config_M (default : wcfg) (m : list (Z * wcfg)) (queries : list Z
 (* ---- Frame.iter_tuple with the default constructor: the arguments are instances of a namedtuple class
    created on the fly (util.get_tuple_constructor), which pickle cannot serialise: on a process pool every
    task fails with PicklingError before it runs (finding C18-namedtuple-pickle); thread pools do not pickle *)
-Definition pool_f_nt (kind : pool_kind) (fails : list (Z * string)) (a : val) : res val :=
+Definition pool_f_nt (kind : pool_kind) (fails : list (Z * string)) (a : Z) : res val :=
   match kind with Procs => Err "PicklingError" | Threads => pool_f fails a end.
 Definition c18_apply_nt_M (items_form : bool) (fails : list (Z * string)) (kind : pool_kind) (k c : Z)
-           (pi : list nat) (items : list (val * val)) (obs : res (list (val * val))) : bool :=
-  obs_eqb pairs_eqb (M_apply_pool (mk_arg_val items_form) (pool_f_nt kind fails) kind k c pi items) obs.
+           (pi : list nat) (items : list (val * Z)) (obs : res (list (val * val))) : bool :=
+  obs_eqb pairs_eqb (M_apply_pool (mk_arg_d items_form) (pool_f_nt kind fails) kind k c pi items) obs.
+
+(* S for StoreConfigMap: a map with a per-label config whose worker settings differ from the default's must
+   not be accepted; an accepted map answers every label with the default's worker settings.  (Rejecting is
+   always allowed by this property.) *)
+Definition c18_config_S (default : wcfg) (m : list (Z * wcfg)) (obs : res (list settings)) : bool :=
+  match obs with
+  | Err _ => true
+  | Ok sets =>
+      negb (existsb (fun p => negb (settings_eqb (settings_of (snd p)) (settings_of default))) m)
+      && forallb (settings_eqb (settings_of default)) sets
+  end.
+
+(* ---- FRAME_ELEMENTS: keys are (row label, column label) pairs; the returned Frame is rebuilt from the delivered
+   stream by run segmentation on the outer key (SF/Pool.v: ctor_elements), observed through iter_element_items(axis) *)
+Definition mk_arg_e (items_form : bool) (k : val * val) (dv : Z) : Z :=
+  if items_form then pair_digest (digest (VTup [fst k; snd k])) dv else dv.
+Definition ekey_eqb := pair_eqb val_eqb val_eqb.
+Definition epairs_eqb : list ((val * val) * val) -> list ((val * val) * val) -> bool := list_eqb (pair_eqb ekey_eqb val_eqb).
+Definition outer_of_axis (axis1 : bool) (k : val * val) : val := if axis1 then snd k else fst k.
+Definition mk_key_axis (axis1 : bool) (o i : val) : val * val := if axis1 then (i, o) else (o, i).
+
+Definition c18_elements_M (axis1 items_form : bool) (fails : list (Z * string)) (kind : pool_kind) (k c : Z)
+           (pi : list nat) (outer inner : list val) (items : list ((val * val) * Z)) (obs : res (list ((val * val) * val))) : bool :=
+  obs_eqb epairs_eqb
+    (match M_apply_pool (mk_arg_e items_form) (pool_f fails) kind k c pi items with
+     | Err e => Err e
+     | Ok stream => ctor_elements val_eqb (outer_of_axis axis1) (mk_key_axis axis1) outer inner stream
+     end) obs.
+Definition c18_elements_S (items_form : bool) (fails : list (Z * string))
+           (items : list ((val * val) * Z)) (obs : res (list ((val * val) * val))) : bool :=
+  spec_eqb epairs_eqb (S_apply (mk_arg_e items_form) (pool_f fails) items) obs.
